@@ -291,6 +291,24 @@ func (d *recDrv) ExecContext(_ context.Context, q string, _ ...any) (sql.Result,
 	return nil, nil
 }
 
+// emptyBody is a file WITHOUT statements (comment only / zero bytes / blank lines / directive only, by version);
+// a statement-less checkpoint keeps its directive header. Such a file is a migration like any other: it is
+// recorded (applied = total = 0) when it is its turn and counts for ExecuteN.
+func emptyBody(f file) string {
+	if f.Ck {
+		return strings.SplitN(body(f), "\n\n", 2)[0] + "\n"
+	}
+	switch f.Ver {
+	case "2", "6":
+		return ""
+	case "3":
+		return "\n\n"
+	case "4":
+		return "-- atlas:nolint\n"
+	}
+	return "-- placeholder: nothing to do in this version\n"
+}
+
 func body(f file) string {
 	b := fmt.Sprintf("select %s1;\nselect %s2;\n", f.Ver, f.Ver)
 	if f.Ck {
@@ -311,9 +329,14 @@ func body(f file) string {
 // applyAgree runs the real ExecuteN(n) for the case and checks that exactly the model's first n pending
 // files are executed (the partially applied one from its second statement), in order, and that the
 // pending set afterwards is the model's remainder.
-func applyAgree(cs Case, want result, n int) string {
+// With empty != "", the file of that (pending, not partially applied) version has no statements.
+func applyAgree(cs Case, want result, n int, empty string) string {
 	dir := &migrate.MemDir{}
 	for _, f := range cs.Files {
+		if f.Ver == empty {
+			dir.WriteFile(f.Ver+"_x.sql", []byte(emptyBody(f)))
+			continue
+		}
 		dir.WriteFile(f.Ver+"_x.sql", []byte(body(f)))
 	}
 	sum, _ := dir.Checksum()
@@ -340,7 +363,7 @@ func applyAgree(cs Case, want result, n int) string {
 		return "NewExecutor: " + err.Error()
 	}
 	if err := ex.ExecuteN(context.Background(), n); err != nil {
-		return fmt.Sprintf("ExecuteN(%d): %v", n, err)
+		return fmt.Sprintf("ExecuteN(%d)%s: %v", n, emptyNote(empty), err)
 	}
 	k := n
 	if k <= 0 || k > len(want.pending) {
@@ -352,22 +375,44 @@ func applyAgree(cs Case, want result, n int) string {
 		partial = cs.Revs[len(cs.Revs)-1].Ver
 	}
 	for _, v := range want.pending[:k] {
+		if v == empty {
+			continue
+		}
 		if v != partial {
 			exp = append(exp, fmt.Sprintf("select %s1;", v))
 		}
 		exp = append(exp, fmt.Sprintf("select %s2;", v))
 	}
 	if strings.Join(exp, "|") != strings.Join(d.execs, "|") {
-		return fmt.Sprintf("ExecuteN(%d) executed %v, model says %v", n, d.execs, exp)
+		return fmt.Sprintf("ExecuteN(%d)%s executed %v, model says %v", n, emptyNote(empty), d.execs, exp)
 	}
 	// every executed file now has a complete revision
 	for _, v := range want.pending[:k] {
 		r, err := store.ReadRevision(context.Background(), v)
 		if err != nil || r.Applied != r.Total || r.Error != "" {
-			return fmt.Sprintf("after ExecuteN(%d): revision %s = %+v (%v)", n, v, r, err)
+			return fmt.Sprintf("after ExecuteN(%d)%s: revision %s = %+v (%v)", n, emptyNote(empty), v, r, err)
 		}
 	}
+	// and what is pending afterwards is the model's remainder (an executed file is never decided to run again)
+	after, err := ex.Pending(context.Background())
+	if err != nil && !errors.Is(err, migrate.ErrNoPendingFiles) {
+		return fmt.Sprintf("after ExecuteN(%d)%s: Pending: %v", n, emptyNote(empty), err)
+	}
+	var got []string
+	for _, f := range after {
+		got = append(got, f.Version())
+	}
+	if strings.Join(got, "|") != strings.Join(want.pending[k:], "|") {
+		return fmt.Sprintf("after ExecuteN(%d)%s: pending %v, model's remainder %v", n, emptyNote(empty), got, want.pending[k:])
+	}
 	return ""
+}
+
+func emptyNote(v string) string {
+	if v == "" {
+		return ""
+	}
+	return " [file " + v + " has no statements]"
 }
 
 func sum1(text string) string {
@@ -457,15 +502,37 @@ func check(c *rt.Ctx, cs Case, sample bool) {
 			if n > len(m.pending) {
 				continue
 			}
-			var why string
-			if p, val, st := rt.Try(func() { why = applyAgree(cs, m, n) }); p {
-				c.Violation("apply-n|"+rt.PanicKey(st), fmt.Sprintf("ExecuteN(%d) panics: %v", n, val), cs, map[string]any{"stack": st, "n": n})
-				return
+			// once with the regular two-statement files, then once per executed (not partially applied) version
+			// with that file turned into a statement-less one
+			k := n
+			if k <= 0 || k > len(m.pending) {
+				k = len(m.pending)
 			}
-			c.Count("apply-n-checked", 1)
-			if why != "" {
-				c.Violation("apply-n|disagree", why, cs, map[string]any{"n": n, "model": m.String()})
-				return
+			partial := ""
+			if len(cs.Revs) > 0 && cs.Revs[len(cs.Revs)-1].Partial {
+				partial = cs.Revs[len(cs.Revs)-1].Ver
+			}
+			for _, empty := range append([]string{""}, m.pending[:k]...) {
+				if empty != "" && empty == partial {
+					continue
+				}
+				var why string
+				if p, val, st := rt.Try(func() { why = applyAgree(cs, m, n, empty) }); p {
+					c.Violation("apply-n|"+rt.PanicKey(st), fmt.Sprintf("ExecuteN(%d) panics: %v", n, val), cs, map[string]any{"stack": st, "n": n, "empty": empty})
+					return
+				}
+				c.Count("apply-n-checked", 1)
+				if empty != "" {
+					c.Count("apply-n-checked:statement-less-file", 1)
+				}
+				if why != "" {
+					key := "apply-n|disagree"
+					if empty != "" {
+						key = "apply-n|statement-less-file|disagree"
+					}
+					c.Violation(key, why, cs, map[string]any{"n": n, "model": m.String(), "empty": empty})
+					return
+				}
 			}
 		}
 	}
